@@ -4,6 +4,7 @@ Implementation of a subset of the
 Implemented with `SLY <https://sly.readthedocs.io/en/latest/>`_.
 """
 
+import copy
 import re
 from typing import Any, Callable, List, Optional, TypeVar, Union
 
@@ -112,6 +113,19 @@ class ODataLexer(Lexer):
             TokenizingException
         """
         raise exceptions.TokenizingException(token)
+
+    def tokenize(self, text: str, lineno: int = 1, index: int = 0):
+        """
+        Tokenize ``text``.
+
+        SLY keeps the scan position on the lexer instance while token actions run,
+        and writes it back whenever a token stream is finalized. A stream that was
+        abandoned halfway (e.g. after a parsing error) may be finalized much later
+        by the garbage collector, in the middle of another tokenization. Therefore
+        every token stream works on its own shallow copy of the lexer, so streams
+        of a shared lexer instance can never corrupt each other.
+        """
+        return super(ODataLexer, copy.copy(self)).tokenize(text, lineno, index)
 
     # NOTE: Ordering of tokens is important! Longer tokens preferably first
 
